@@ -14,7 +14,7 @@ RULE = (
     "finite scenario table x fillers: (1) direct scenarios: version; plugins list/info (hit, bad filter); extensions list/info (hit); no sub-command; unknown option; bad --return-code-scheme; "
     "missing / unparseable --config; strict-mode configuration error; bad --add-plugin path and class; (2) every ordered file set of size 1-3 over the member kinds {clean, unfixable failure, fixable failure, "
     "plugin fault, parser fault, undecodable, missing path, ineligible file, glob without match, empty directory} x {scan, fix, scan --list-files} x --continue-on-error, plus scan-stdin over the document kinds; "
-    "each under both schemes, the scheme selected by --return-code-scheme or by mode.return_code_scheme in --set / --config / .pymarkdown / pyproject.toml (rotating); quick = seeded sample of the file sets, "
+    "each under both schemes, the scheme selected by --return-code-scheme, by mode.return_code_scheme in --set / --config / .pymarkdown / pyproject.toml, or by an explicit argument against a contrary configured value (rotating); quick = seeded sample of the file sets, "
     "thorough = all; oracle (model in this file): category by the user-guide definitions with precedence path-error/no-files > any application error > fixed >= 1 file > failures found > success, "
     "mapped through the documented table; observed as SystemExit.code of PyMarkdownLint.main and, for a sample, as the real process exit status of `python -m pymarkdown`; "
     "non-trivial = the run mixes >= 2 different per-file outcomes or selects the scheme through configuration; distinct by (scenario, scheme, selection)"
@@ -30,11 +30,15 @@ DOCS = {
 }
 PATH_KINDS = ["missing", "ineligible", "glob-nomatch", "emptydir"]
 KINDS = list(DOCS) + PATH_KINDS
-SELECTIONS = ["arg", "set", "config", "default-file", "pyproject"]
+SELECTIONS = ["arg", "set", "config", "default-file", "pyproject", "arg-over-config"]
 
 
 def scheme_args(sb, scheme, selection):
     """-> argv prefix selecting `scheme` (None = leave default)"""
+    if selection == "arg-over-config":
+        # an explicit argument is the most specific layer: it wins over a configured scheme
+        other = "minimal" if scheme == "default" else "default"
+        return ["--set", f"mode.return_code_scheme={other}", "--return-code-scheme", scheme]
     if scheme == "default" and selection == "arg":
         return []  # the documented default needs no selection at all
     if selection == "arg":
